@@ -159,6 +159,7 @@ type pendingCommand struct {
 	release   chan struct{} // a converted handler blocked on a goroutine of the bridge: closing lets it return
 	remaining int
 	result    error
+	closing   bool // completion is reported by closing ch
 }
 
 // hostRunner is one DialogueRunner with its host side.
@@ -307,12 +308,22 @@ func newHostRunner(storerMode bool, init []*sx.Node, seed string, hcmds []string
 			if failing {
 				result = errScheduled
 			}
+			// every other successful completion is reported by closing the channel (a receive from a
+			// closed channel yields a nil error), the others by a value in the buffer
+			closing := !failing && h.nsched%2 == 1
 			ch := make(chan error, 1)
+			if closing {
+				ch = make(chan error)
+			}
 			if polls == 0 {
-				ch <- result
+				if closing {
+					close(ch)
+				} else {
+					ch <- result
+				}
 			} else {
 				h.mu.Lock()
-				h.pending = &pendingCommand{ch: ch, remaining: polls - 1, result: result}
+				h.pending = &pendingCommand{ch: ch, remaining: polls - 1, result: result, closing: closing}
 				h.mu.Unlock()
 			}
 			return ch
@@ -328,6 +339,8 @@ func (h *hostRunner) next(choice int) (out *sx.Node) {
 		if h.pending.remaining == 0 {
 			if h.pending.release != nil {
 				close(h.pending.release)
+			} else if h.pending.closing {
+				close(h.pending.ch)
 			} else {
 				h.pending.ch <- h.pending.result
 			}
@@ -422,6 +435,24 @@ func caseTexts(c *sx.Node) []string {
 	texts := []string{}
 	for _, group := range splitReaders(nodes, c.L[8]) {
 		texts = append(texts, lay.printNodes(group))
+	}
+	// how a reader ends is layout too (derived from the layout seed): with its line end, without it,
+	// with trailing blanks, with a trailing comment and no line end
+	if len(c.L[9].L) >= 9 {
+		style := c.L[9].L[8].Int() % 8
+		for i, t := range texts {
+			bare := strings.TrimSuffix(t, lay.nl)
+			switch style {
+			case 1:
+				texts[i] = bare
+			case 2:
+				texts[i] = bare + "   "
+			case 3:
+				texts[i] = bare + " // end of this file"
+			case 4:
+				texts[i] = bare + " // vim: ft=yarn" + lay.nl + lay.nl
+			}
+		}
 	}
 	return texts
 }
